@@ -35,8 +35,12 @@ def gotest(wt, pkgs, run=None, stub=False, timeout=1200):
     return sh(cmd, wt, timeout)
 
 
+PFX = os.environ.get("SEEDPFX", "seed")          # SEEDPFX=seed2: second round, outputs in /tmp/seed2-<cNN>-out, stored as <ID>-4..6
+OFFSET = {"seed": 0, "seed2": 3, "seed3": 6}.get(PFX, 0)
+
+
 def seeds(cid):
-    return sorted(d for d in glob.glob("/tmp/seed-%s-out/*" % cid) if os.path.isdir(d) and os.path.exists(d + "/patch.diff"))
+    return sorted(d for d in glob.glob("/tmp/%s-%s-out/*" % (PFX, cid)) if os.path.isdir(d) and os.path.exists(d + "/patch.diff"))
 
 
 def clean(wt):
@@ -130,7 +134,7 @@ def store(cid):
         st = json.load(open(stp)) if os.path.exists(stp) else {}
         if not st.get("confirmed"):
             continue
-        i = os.path.basename(d)
+        i = str(int(os.path.basename(d)) + OFFSET)
         dst = os.path.join(V, "seeded", "%s-%s" % (cid.upper(), i))
         os.makedirs(dst, exist_ok=True)
         shutil.copy(d + "/patch.diff", dst)
